@@ -817,7 +817,15 @@ def sum(a, axis=None, **k):
 
 def mean(a, axis=None, **k):
     a = asarray(a)
-    n = a.size if axis is None else a.shape[axis]
+    if axis is None:
+        n = a.size
+    elif isinstance(axis, (tuple, list)):
+        n = 1
+        for ax in axis:
+            n *= a.shape[ax]
+        axis = tuple(axis)
+    else:
+        n = a.shape[axis]
     return sum(a, axis=axis, **k) * Fraction(1, n)
 
 
@@ -1115,6 +1123,63 @@ class _Lib:
 
 
 lib = _Lib()
+
+
+class _Random:
+    """Nondeterministic stubs for numpy.random: mode 'mean' returns the noise-free value (Poisson -> its mean, normal -> loc),
+    mode 'free' returns fresh symbols of the documented support taken from the harness' parameter pool
+    (pois_<k>: non-negative integers, norm_<k>: reals, uni_<k>: (0,1))."""
+    mode = 'mean'
+    counter = {'pois': 0, 'norm': 0, 'uni': 0}
+
+    def reset(self, mode):
+        self.mode = mode
+        self.counter = {'pois': 0, 'norm': 0, 'uni': 0}
+
+    def _fresh(self, kind):
+        i = self.counter[kind]
+        self.counter[kind] += 1
+        name = '%s_%d' % (kind, i)
+        ctx = cur()
+        if name not in ctx.gens:
+            raise NotEncodable('random stub needs parameter %s declared by the harness' % name)
+        return ctx.param(name)
+
+    def poisson(self, lam=1.0, size=None):
+        lam = asarray(lam) if isinstance(lam, (_np.ndarray, list, tuple)) else _ex(lam)
+        shape = _np.shape(lam) if size is None else _shape(size)
+        out = _np.empty(shape, dtype=object)
+        lamb = _np.broadcast_to(_np.asarray(lam, dtype=object), shape)
+        for idx in _np.ndindex(*shape):
+            out[idx] = lamb[idx] if self.mode == 'mean' else self._fresh('pois')
+        return out.view(SymArray) if shape != () else out[()]
+
+    def normal(self, loc=0.0, scale=1.0, size=None):
+        shape = _np.shape(loc) if size is None else _shape(size)
+        out = _np.empty(shape, dtype=object)
+        locb = _np.broadcast_to(_np.asarray(asarray(loc) if isinstance(loc, (_np.ndarray, list, tuple)) else _ex(loc), dtype=object), shape)
+        for idx in _np.ndindex(*shape):
+            out[idx] = locb[idx] if self.mode == 'mean' else locb[idx] + self._fresh('norm')
+        return out.view(SymArray) if shape != () else out[()]
+
+    def rand(self, *shape):
+        out = _np.empty(shape, dtype=object)
+        for idx in _np.ndindex(*shape):
+            out[idx] = self._fresh('uni')
+        return out.view(SymArray) if shape != () else out[()]
+
+    def uniform(self, low=0.0, high=1.0, size=None):
+        shape = () if size is None else _shape(size)
+        out = _np.empty(shape, dtype=object)
+        for idx in _np.ndindex(*shape):
+            out[idx] = _ex(low) + (_ex(high) - _ex(low)) * self._fresh('uni')
+        return out.view(SymArray) if shape != () else out[()]
+
+    def default_rng(self, *a, **k):
+        return self
+
+
+random = _Random()
 
 
 def hanning(M):
